@@ -238,7 +238,7 @@ func vh_C20_CurryDefSequential() {
 	ok := vfNoPanic("nopanic", func() {
 		for i, b := range batches {
 			ret := c.Call(b...)
-			vfAssert("call-returns-self", ret == c)
+			vfAssert("lemma/call-returns-self", ret == c)
 			if i < doneAfter {
 				all = append(all, b...)
 				vfAssert("invoked-once-per-call", calls == i+1)
